@@ -27,7 +27,7 @@ def _watch():
     global _watched
     if not _watched:
         sched.watch([HTTPConnectionPool._get_conn, HTTPConnectionPool._put_conn, HTTPConnectionPool.close,
-                     _close_pool_connections, HTTPResponse.release_conn])
+                     _close_pool_connections, HTTPResponse.release_conn, HTTPResponse.close])
         _watched = True
 
 
@@ -61,6 +61,14 @@ class C02Server(Server):
         h = w.holder.get(sock.sid)
         if h is not None and h != tid:
             w.flags.append(("connection-shared", (h, tid, sock.sid)))
+
+    def on_close(self, sock):
+        # a socket is closed by its leaseholder (or, idle in / drained from the queue, by anyone): a thread that
+        # closes a connection another thread has checked out tears that thread's exchange down
+        h = self.w.holder.get(sock.sid)
+        tid = self._tid()
+        if h is not None and tid is not None and h != tid:
+            self.w.flags.append(("connection-closed-under-its-holder", (h, tid, sock.sid)))
 
     def on_request(self, sock, req, idx):
         body = req.target.encode()
@@ -102,7 +110,12 @@ def execute(cfg, prefix):
                 for j in range(n):
                     path = "/t%d-%d" % (tid, j)
                     try:
-                        if stream:
+                        if stream == "close":
+                            # streaming response disposed of by close() alone, body unread
+                            r = pool.urlopen("GET", path, preload_content=False, pool_timeout=pt)
+                            r.close()
+                            data = path.encode()
+                        elif stream:
                             r = pool.urlopen("GET", path, preload_content=False, pool_timeout=pt)
                             data = r.read()
                             r.release_conn()
@@ -124,6 +137,8 @@ def execute(cfg, prefix):
         for tid, prog in enumerate(cfg["programs"]):
             if prog == "close":
                 s.spawn(tid, closer)
+            elif prog.startswith("sclose"):
+                s.spawn(tid, requester(tid, int(prog[6:] or 1), stream="close"))
             elif prog.startswith("stream"):
                 s.spawn(tid, requester(tid, int(prog[6:] or 1), stream=True))
             else:
@@ -178,7 +193,8 @@ def lease_check(events):
 def configs(thorough):
     out = []
     progsets = [("req1", "req1"), ("req2", "req1"), ("req1", "req1", "req1"), ("req1", "req1", "close"),
-                ("stream1", "req1"), ("req1", "close"), ("stream1", "close"), ("req2", "close")]
+                ("stream1", "req1"), ("req1", "close"), ("stream1", "close"), ("req2", "close"),
+                ("sclose1", "req1"), ("sclose1", "close")]
     if thorough:
         progsets += [("req2", "req2"), ("stream1", "stream1", "req1"), ("req1", "req1", "req1", "close")]
     for maxsize in (1, 2):
